@@ -2,6 +2,7 @@
 # dev helper: run every check of a tier and summarise (not part of the manifest)
 cd "$(dirname "$0")"
 TIER=${1:-quick}
+mkdir -p out
 for i in 01 02 03 04 05 06 07 08 09 10 11 12 13 14 15 16 17; do
   s=$(date +%s)
   ./check C$i $TIER > out/run_C$i.log 2>&1; rc=$?
